@@ -46,6 +46,11 @@ ASSUMPTIONS = [
     "universe of 23 file paths under 3 top-level directories with one real and one symlinked sub-directory each",
     "Dir.rmdir is exercised with recursive=True only; Dir.copy_to between non-overlapping or identical directories",
     "FileSet patterns are `<dir>/*` and `<dir>/**`",
+    "out-of-band changes of the tree shape: a top-level directory (emptied first) is replaced by a regular file or by a "
+    "symlink to itself, the objects below are hashed / validated / refreshed, then the blocker is removed; and File objects "
+    "with an over-long name (ENAMETOOLONG). For the model these paths are simply missing. Not staged when a ContentFile "
+    "object lies below the blocked directory: ContentFile._calc_hash opens the file and FileSystem.open turns ENOTDIR / "
+    "ELOOP into RedunOSError (reported to the lead as an observation, not part of this check)",
     "File.open: ASCII payloads, one write at position 0 of the returned stream; exclusive-creation modes only on the two "
     "root-level files (LocalFileSystem creates parent directories for w/a modes only)",
     "integer mtimes (set explicitly); two writes may deliberately receive the same mtime",
@@ -199,6 +204,20 @@ def gen_case(rng, nops):
                     ops.append(("dcopy", a, b, rng.random() < 0.25, tick()))
                 else:
                     ops.append((kind, a, b, tick()))
+        elif k < 0.89 and files:
+            # out-of-band change of the tree SHAPE: a directory is replaced by a regular file / a symlink loop, so that every
+            # path below it is unreachable (ENOTDIR / ELOOP); only observations while it lasts; then the blocker is removed.
+            # Not staged for directories with a ContentFile object below (see ASSUMPTIONS).
+            d = rng.choice(TOPS)
+            if not any(sp[0] == "file" and sp[1] == "content" and sp[2][:1] == d for sp in specs):
+                for pth in [q for q in U if q[:1] == d]:
+                    ops.append(("xremove", pth))
+                root_sets = any(sp[0] == "fset" and sp[2] == () for sp in specs)   # a root-level FileSet would list the blocker file
+                ops.append(("xblock", d, "loop" if root_sets else rng.choice(["file", "loop"])))
+                under = [j for j in files if specs[j][2][:1] == d] or files
+                for _ in range(rng.choice([2, 3, 4])):
+                    ops.append((rng.choice(["valid", "valid", "hash", "update", "reload"]), rng.choice(under)))
+                ops.append(("xunblock", d))
         elif k < 0.95:
             ops.append(("xwrite", rng.choice(U), rng.choice(DATA), tick()))
         else:
@@ -242,6 +261,15 @@ CORPUS = [
      ("open", 0, "rb+", b"", 1004, True), ("valid", 0), ("open", 1, "rb", b"", 1005, True), ("valid", 1),
      ("open", 0, "x", b"q", 1006, True), ("remove", 0), ("open", 1, "r+", b"q", 1007, True), ("open", 1, "xb", b"new", 1008, False),
      ("valid", 1), ("open", 0, "a+", b"!", 1009, True), ("valid", 0), ("open", 0, "w+b", b"", 1010, False), ("valid", 0)],
+    # the directory of a written file is replaced by a regular FILE, then by a symlink loop: the path is unreachable
+    # (ENOTDIR / ELOOP), hash / is_valid / update_hash must treat it like a missing file; also an over-long file name
+    [("new", ("file", "plain", ("d3", "a"))), ("new", ("file", "plain", ("d3", "s", "c"))), ("new", ("dir", "plain", ("d3",))),
+     ("write", 0, b"abc", 1001), ("write", 1, b"ab", 1002), ("hash", 2), ("xremove", ("d3", "a")), ("xremove", ("d3", "s", "c")),
+     ("xblock", ("d3",), "file"), ("valid", 0), ("hash", 1), ("update", 0), ("valid", 1), ("reload", 0), ("valid", 2), ("xunblock", ("d3",)),
+     ("valid", 0), ("write", 0, b"abc", 1003), ("valid", 0), ("xremove", ("d3", "a")), ("xblock", ("d3",), "loop"), ("valid", 0), ("update", 1),
+     ("hash", 0), ("xunblock", ("d3",)), ("valid", 1)],
+    [("new", ("file", "plain", ("d1", "n" * 300))), ("new", ("file", "plain", ("n" * 256,))), ("hash", 0), ("valid", 0), ("update", 1), ("valid", 1),
+     ("reload", 0), ("valid", 0)],
     # immutable classes
     [("new", ("file", "imm", ("f",))), ("new", ("dir", "imm", ("d1",))), ("new", ("fset", "imm", ("d1",), True)),
      ("hash", 0), ("hash", 1), ("hash", 2), ("xwrite", ("f",), b"a", 1001), ("xwrite", ("d1", "a"), b"a", 1001),
@@ -282,6 +310,8 @@ def model_line(op):
         return "(xwrite %s b%s i%d)" % (r_path(op[1]), op[2].hex(), op[3])
     if k == "xremove":
         return "(xremove %s)" % r_path(op[1])
+    if k in ("xblock", "xunblock"):
+        return "(xremove %s)" % r_path(op[1] + ("a",))        # nothing changes for the model: no file is below any more
     raise ValueError(op)
 
 
@@ -384,6 +414,26 @@ def do_op(w, objs, op):
         elif k == "xremove":
             w.xremove(op[1])
             return "ok"
+        elif k == "xblock":
+            import os
+            import shutil
+            p = w.abs(op[1])
+            if os.path.islink(p) or os.path.isfile(p):
+                os.remove(p)
+            elif os.path.isdir(p):
+                shutil.rmtree(p)
+            if op[2] == "file":
+                with open(p, "wb") as f:
+                    f.write(b"not a directory")
+            else:
+                os.symlink(p, p)                    # a symlink to itself: ELOOP for everything below
+            return "ok"
+        elif k == "xunblock":
+            import os
+            p = w.abs(op[1])
+            if os.path.islink(p) or os.path.isfile(p):
+                os.remove(p)
+            return "ok"
         else:
             raise ValueError(op)
         if k in ("copy", "stage", "unstage"):
@@ -423,6 +473,10 @@ def oracle(ctx, w, objs, specs, op, out, case, tables):
                               expected=w.r_hash(fresh), actual=w.r_hash(getattr(o, "_hash", None)), kind="history")
         except FileNotFoundError:
             pass        # reported by (4)
+    # (0) hashing, validating, refreshing never raise (a path that cannot be reached hashes like a missing file)
+    if k in ("hash", "valid", "update", "reload") and out.startswith("!"):
+        ctx.violation("C30-hash-or-validity-raises", "%s of %s raised %s instead of treating an unreachable path like a missing "
+                      "file" % (k, specs[op[1]], out[1:]), case=case, expected="a hash / True / False", actual=out, kind="history")
     # (2) valid exactly when recorded hash = current hash
     if k == "valid" and out in ("T", "F") and "recorded" in tables:
         rec = tables.pop("recorded")
